@@ -302,15 +302,14 @@ class Folder:
         raise NotConst("unaryop")
 
     def _f_BoolOp(self, n):
-        vals = [self.fold(v) for v in n.values]
-        if isinstance(n.op, ast.And):
-            r = True
-            for v in vals:
-                r = r and v
-            return r
-        r = False
-        for v in vals:
-            r = r or v
+        # short-circuit, like the language
+        r = None
+        for v in n.values:
+            r = self.fold(v)
+            if isinstance(n.op, ast.And) and not r:
+                return r
+            if isinstance(n.op, ast.Or) and r:
+                return r
         return r
 
     def _f_Compare(self, n):
